@@ -522,7 +522,9 @@ def sweep_rt_levels(stride=1, phase=0):
 def sweep_rt_flag_histories(length=4):
     """C08: every history of `length` steps over {2A group with flag A / B and block B error-free / corrected (level 1), clear}, on a
     fresh parser, with the information-block threshold at 0 (the corrected ones are rejected as text) and at 1 (accepted): the
-    whole A/B protocol including what the very first flag after a reset does"""
+    whole A/B protocol including what the very first flag after a reset does. Then every history of `length - 1` steps over
+    {flag A / B x block B clean / corrected x data blocks usable / rejected, clear} with the SAME payload in every step
+    (bit-identical groups come back: a 'same as the last group that changed something' shortcut shows only then)."""
     import itertools
     out = []
     steps = [(0, 0), (0, 1), (1, 0), (1, 1), None]
@@ -535,6 +537,15 @@ def sweep_rt_flag_histories(length=4):
                 else:
                     fl, eb = st
                     out.append(P(0x1234, 0x2000 | (fl << 4) | (k % 2), 0x4141 + 0x0101 * k, 0x6161 + 0x0101 * k, 0, eb, 0, eb))
+    steps2 = [(fl, eb, rej) for fl in (0, 1) for eb in (0, 1) for rej in (0, 1)] + [None]
+    for h in itertools.product(steps2, repeat=length - 1):
+        if h[0] is None: continue
+        out += ["new", "r 9 1", "c 1 0 1", "c 1 1 1"]
+        for st in h:
+            if st is None: out.append("clear")
+            else:
+                fl, eb, rej = st
+                out.append(P(0x1234, 0x2000 | (fl << 4) | 1, 0x4142, 0x4344, 0, eb, 3 * rej, 3 * rej))
     return out
 
 def sweep_af_histories():
@@ -549,6 +560,13 @@ def sweep_af_histories():
         for h in itertools.product(pairs3, repeat=3):
             out.append("clear")
             for k, c in enumerate(h): out.append(P(0x1234, 0x0008 | (k & 3), c, 0x2020))
+        # … and the same while nothing else is ever known: block A damaged, PTY / TP / TA / MS different in every group (under
+        # the extended check no scalar is confirmed) — the AF list is the only thing a reset has to wipe
+        for h in itertools.product(pairs3[:4], repeat=3):
+            out.append("clear")
+            for k, c in enumerate(h):
+                out.append(P(0x1234 + k, 0x0008 | ((k * 7 + 3) % 32 << 5) | ((k & 1) << 10) | ((k & 1) << 4) | (((k >> 1) & 1) << 3) | (k & 3), c, 0x2020, 1, 0, 0, 3))
+            out += ["clear", P(0x4321, 0x0008 | (9 << 5), h[0], 0x2020, 1, 0, 0, 3)]
         pairs2 = [(a << 8) | b for a in (10, 204, 250, 205) for b in (10, 204)]
         for h in itertools.product(pairs2, repeat=4):
             if len(set(h)) == 1: continue
@@ -587,6 +605,25 @@ def sweep_country_callbacks():
     for nib in range(1, 16):
         for e in eccs:
             out += ["new"] + ALL_CBS + [P((nib << 12) | 0x0ABC, 0x1000 | (9 << 5), e, 0), P((nib << 12) | 0x0ABC, 0x0008 | (9 << 5), 0x0A14, 0x4142), "q"]
+    return out
+
+def sweep_ctrl_pairs(stride=1, phase=0):
+    """bytes that store nothing must have no effect on what is decoded later: every pair of control codes (0x00..0x1F, 0x0D left
+    out) delivered error-free to the first two cells of each text — a shift-in / shift-out / escape sequence to a decoder that
+    tracks code-table designations — followed by one group with bytes from every quarter of the code table in the next cells"""
+    out = ["new"] + ALL_CBS
+    codes = [c for c in range(0x20) if c != 0x0D]
+    n = 0
+    for t, (b0, b1) in enumerate(((0x0000, 0x0001), (0x2000, 0x2001), (0xA000, 0xA001))):
+        for c1 in codes:
+            for c2 in codes + [0x6E, 0x6F, 0x7E, 0x7D]:
+                n += 1
+                if (n + phase) % stride and not (c1 == c2 or c1 in (0x0E, 0x0F, 0x1B)): continue
+                w = (c1 << 8) | c2
+                if t == 0:
+                    out += ["clear", P(0x1234, b0, 0, w), P(0x1234, b1, 0, 0xE941), P(0x1234, b0 | 2, 0, 0x8DFF)]
+                else:
+                    out += ["clear", P(0x1234, b0, w, 0x4142), P(0x1234, b1, 0xE941, 0x8DFF), P(0x1234, b0, 0xC0A0, 0x245E)]
     return out
 
 def sweep_rt_sums():
@@ -755,6 +792,10 @@ def sweep_ecc(stride=1, phase=0):
                     if ecc == 0:
                         out.append("clear")
                     out.append(P(pi, 0x1000 | (ver << 11), (variant << 12) | ecc, 0, ea, 0, 0, 0))
+                    if cls != 0 and variant == 0 and ver == 0 and ecc % 16 in (0, 1, 2, 3):
+                        # the same ECC on a parser that knows no PI (reset, block A damaged): country unknown, whatever was
+                        # looked up before the reset
+                        out += ["clear", P(pi, 0x1000, ecc, 0, 1, 0, 0, 0), P(pi, 0x1000, ecc, 0, 1, 0, 0, 0)]
     for ecc in (0xE0, 0xE2, 0xA0):
         out += [P(0xD234, 0x1000, ecc, 0, 0, 1, 0, 0), P(0xD234, 0x1000, ecc, 0, 0, 0, 1, 0), P(0xD234, 0x1000, 0x8000 | ecc, 0)]
     return out
